@@ -438,6 +438,12 @@ func (m *Machine) approx(it *Item, exact T, hint string) T {
 		f, _ := exact.Rat.Float64()
 		return c.RealF(f)
 	}
+	// the same exact value is rounded the same way every time (fl is a function)
+	mk := hint + "#" + fmt.Sprint(exact.ID)
+	if r, ok := m.approxMemo[mk]; ok {
+		m.AssumeUnder(it.G, m.approxBody[mk], "IEEE-754 standard model: fl(x) = x(1+d), |d| <= 2^-53")
+		return r
+	}
 	r := m.Fresh(hint, sym.SReal)
 	u := c.Real(ulp)
 	one := c.Real(big.NewRat(1, 1))
@@ -456,9 +462,20 @@ func (m *Machine) approx(it *Item, exact T, hint string) T {
 		body = c.Ite(c.Cmp(sym.OpSle, zero, exact), posF, negF)
 	}
 	m.AssumeUnder(it.G, body, "IEEE-754 standard model: fl(x) = x(1+d), |d| <= 2^-53")
+	m.approxBody[mk] = c.Ite(c.Cmp(sym.OpSle, zero, exact), posF, negF)
 	m.Assumptions["floats abstracted to reals with the IEEE-754 standard model (relative error 2^-53 per operation, no overflow/underflow)"] = true
+	// rounding is monotone: x <= y implies fl(x) <= fl(y) (same operation kind)
+	for _, p := range m.approxList[hint] {
+		m.Assume(c.And(c.Implies(c.Cmp(sym.OpSle, p.exact, exact), c.Cmp(sym.OpSle, p.r, r)), c.Implies(c.Cmp(sym.OpSle, exact, p.exact), c.Cmp(sym.OpSle, r, p.r))), "IEEE-754 rounding is monotone")
+	}
+	if len(m.approxList[hint]) < 6 {
+		m.approxList[hint] = append(m.approxList[hint], approxRec{exact, r})
+	}
+	m.approxMemo[mk] = r
 	return r
 }
+
+type approxRec struct{ exact, r T }
 
 func (m *Machine) floatBinop(it *Item, op token.Token, a, b T) Value {
 	c := m.C
@@ -528,6 +545,14 @@ func (m *Machine) floatBinop(it *Item, op token.Token, a, b T) Value {
 			body = c.Or(up, down)
 		}
 		m.AssumeUnder(g, body, "IEEE-754 standard model for division")
+		for _, p := range m.divList {
+			if p.b == b && sb == 1 {
+				m.Assume(c.And(c.Implies(c.Cmp(sym.OpSle, p.a, a), c.Cmp(sym.OpSle, p.q, q)), c.Implies(c.Cmp(sym.OpSle, a, p.a), c.Cmp(sym.OpSle, q, p.q))), "IEEE-754 division is monotone in the dividend (same positive divisor)")
+			}
+		}
+		if len(m.divList) < 6 {
+			m.divList = append(m.divList, divRec{a, b, q})
+		}
 		m.Assumptions["floats abstracted to reals with the IEEE-754 standard model (relative error 2^-53 per operation, no overflow/underflow)"] = true
 		return q
 	case token.EQL:
@@ -593,6 +618,23 @@ func (m *Machine) convert(it *Item, x *ssa.Convert) Value {
 	switch {
 	case fromInt && toInt:
 		t := v.(T)
+		if m.IntMode && fi.bits == ti.bits && fi.unsigned != ti.unsigned {
+			// same-width signed <-> unsigned conversion is defined (two's complement): modelled exactly
+			mod := c.IntBig(new(big.Int).Lsh(big.NewInt(1), uint(ti.bits)))
+			if ti.unsigned {
+				neg := c.Cmp(sym.OpSlt, t, c.Int(0))
+				if neg.IsFalse() || (m.Feasible != nil && !m.Feasible(c.And(it.G, neg))) {
+					return t
+				}
+				return c.Ite(neg, c.Bin(sym.OpAdd, t, mod), t)
+			}
+			half := c.IntBig(new(big.Int).Lsh(big.NewInt(1), uint(ti.bits-1)))
+			big_ := c.Cmp(sym.OpSle, half, t)
+			if big_.IsFalse() || (m.Feasible != nil && !m.Feasible(c.And(it.G, big_))) {
+				return t
+			}
+			return c.Ite(big_, c.Bin(sym.OpSub, t, mod), t)
+		}
 		if m.IntMode {
 			lo, hi := rangeOf(ti)
 			in := c.And(c.Cmp(sym.OpSle, c.IntBig(lo), t), c.Cmp(sym.OpSle, t, c.IntBig(hi)))
@@ -666,3 +708,5 @@ func (m *Machine) inHarness(it *Item) bool {
 	}
 	return len(fn.Name()) > 1 && fn.Name()[0] == 'v' && fn.Name()[1] >= 'a' && fn.Name()[1] <= 'z' && fn.Pkg != nil
 }
+
+type divRec struct{ a, b, q T }
